@@ -14,6 +14,8 @@ table, configured excess) and the switch setting `codeToday`.
   http fixes                       the switch setting in use                                                   → <name>=<0|1> …
   http hook <xurl> <0|1>           put a webhook row (active flag) into the table         → ok
   http req <auth> <handler> <args…>                                                       → <status>|<bodies>|<n>
+                                   | err:gen-mismatch hand=… generated=…   (the regenerated handlers of BHS.Gen.Handlers answer
+                                     differently from the hand model; BHS.Props.HandlersGen.agrees_always proves this line is dead)
         auth     disabled | missing | malformed | unknown | user | admin
         handler  byhash <xs> | state <xs> | byheight <xs|-> <xs|-> | ancestors <xs> <xs>
                  | common err | common ok <xs>*
@@ -28,6 +30,7 @@ table, configured excess) and the switch setting `codeToday`.
 -/
 import BHS.Model.Http
 import BHS.Model.Header
+import BHS.Model.HandlersWire
 import Driver.Ops.Chain
 
 namespace Driver.Ops.Http
@@ -154,7 +157,11 @@ def handle (st : S) : List String → Option (S × String)
     match parseAuth a, parseReq rest with
     | some auth, some r =>
       let p := step st.fx st.env auth r
-      some ({ st with env := p.2 }, respStr p.1)
+      -- cross-check: the REGENERATED handlers (BHS.Gen.Handlers, wired by BHS.Model.HandlersWire) on the same request
+      if BHS.HandlersWire.agrees st.fx st.env auth r then some ({ st with env := p.2 }, respStr p.1)
+      else
+        let g := (BHS.HandlersWire.genServe ⟨st.fx, st.env⟩ auth r).map (BHS.HandlersWire.answer (BHS.HandlersWire.ginOf auth r))
+        some ({ st with env := p.2 }, "err:gen-mismatch hand=" ++ respStr p.1 ++ " generated=" ++ (match g with | some x => respStr x | none => "none"))
     | _, _ => some (st, "bad-args")
   | "http" :: _ => some (st, "bad-args")
   | _ => none
